@@ -817,6 +817,48 @@ fn probe_reader_config_builder_order_is_irrelevant() {
         assert!(a.len() <= content.len() && a[..] == content[..a.len()], "configuration order #{order}: authenticated repair is not a prefix of the content");
     }
 }
+/// C04/C14: a reader configuration that was never told otherwise repairs in the ONLY-AUTHENTICATED mode, and opening the archive
+/// (header load, layer stacking) keeps the mode the caller chose: with a bit flipped in the second chunk of a three-chunk file, the
+/// default repair gives back a strict prefix of the content that stops before the altered chunk (also after switching to
+/// "even unauthenticated" and back), while the unauthenticated mode gives back bytes beyond it
+#[test]
+fn probe_fresh_reader_config_repairs_only_authenticated_data() {
+    let content = pnoise(300_000, 17);
+    let mut c = ArchiveWriterConfig::new();
+    c.set_layers(Layers::ENCRYPT);
+    c.add_public_keys(&[pkeys().1]);
+    let mut w = ArchiveWriter::from_config(Vec::new(), c).unwrap();
+    let id = w.start_file("f").unwrap();
+    w.append_file_content(id, content.len() as u64, &content[..]).unwrap();
+    w.end_file(id).unwrap();
+    w.finalize().unwrap();
+    let mut bytes = w.into_raw();
+    let chunk = 128 * 1024 + 16;
+    let at = 200 + chunk + 1000; // inside the second chunk whatever the header length (< 200 bytes here)
+    bytes[at] ^= 0x10;
+    let recover = |how: usize| -> Vec<u8> {
+        let mut rc = ArchiveReaderConfig::new();
+        rc.add_private_keys(&[pkeys().0]);
+        match how {
+            0 => {}
+            1 => { rc.failsafe_return_data_even_unauthenticated(); rc.failsafe_return_only_authenticated_data(); }
+            _ => { rc.failsafe_return_data_even_unauthenticated(); }
+        }
+        let mut fs = ArchiveFailSafeReader::from_config(&bytes[..], rc).expect("repair opens");
+        let mut oc = ArchiveWriterConfig::new();
+        oc.set_layers(Layers::EMPTY);
+        let mut ow = ArchiveWriter::from_config(Vec::new(), oc).unwrap();
+        fs.convert_to_archive(&mut ow).expect("repair runs");
+        let got = pread_all(Cursor::new(ow.into_raw()), Layers::EMPTY);
+        got.into_iter().find(|(n, _)| n == "f").map(|(_, v)| v).unwrap_or_default()
+    };
+    for how in 0..2 {
+        let a = recover(how);
+        assert!(a.len() < content.len() && a[..] == content[..a.len()], "configuration #{how} (0: fresh; 1: unauthenticated then back): default repair of an archive altered in its second chunk gave {} bytes that are not an authenticated prefix of the {} original ones", a.len(), content.len());
+    }
+    let u = recover(2);
+    assert!(u.len() > recover(0).len(), "unauthenticated repair recovers nothing beyond the altered chunk ({} bytes)", u.len());
+}
 #[derive(Clone)]
 struct SharedSink(std::sync::Arc<std::sync::Mutex<Vec<u8>>>);
 impl Write for SharedSink {
